@@ -71,11 +71,20 @@ func rtpanic(format string, a ...any) {
 
 var fuel int64
 
+// pathDeadline bounds one path in wall-clock time as well: a loop whose every
+// iteration asks the solver about ever larger terms exhausts hours, not instructions.
+var pathDeadline time.Time
+
+const pathSeconds = 180
+
 func tick() {
 	X.Instrs++
 	fuel--
 	if fuel < 0 {
 		panic(abortPath{KFuel, "instruction budget exhausted"})
+	}
+	if fuel&0x3f == 0 && !pathDeadline.IsZero() && time.Now().After(pathDeadline) {
+		panic(abortPath{KFuel, fmt.Sprintf("one path ran for more than %d s", pathSeconds)})
 	}
 }
 
@@ -837,6 +846,7 @@ func (e *Explorer) RunPrefix(j *Job, prefix []string, concrete map[string]uint64
 	if fuel == 0 {
 		fuel = 2_000_000
 	}
+	pathDeadline = time.Now().Add(pathSeconds * time.Second)
 	start := e.Instrs
 	func() {
 		defer func() {
